@@ -837,6 +837,7 @@ fn main() {
     let mut transitions = 0u64;
     let samples = Samples::new(6);
     let mut skipped_ill_typed = 0u64;
+    let mut with_use = 0u64;
     for (i, seq) in seqs.iter().enumerate() {
         if i % 4096 == 0 && ctx.over_budget() {
             ctx.set_capped(format!("wall budget {}s: {} of {} sequences", ctx.budget_s(), i, seqs.len()));
@@ -861,6 +862,13 @@ fn main() {
             continue;
         }
         ctx.eval(1);
+        // non-trivial: the sequence does more than create and release (at least one call that uses a handle)
+        if seq.iter().any(|c| {
+            let n = format!("{c:?}");
+            !(n.contains("Create") || n.contains("Deserialize") || n.contains("From") || n.contains("Drop") || n.contains("Close") || n.contains("GetApiVersion"))
+        }) {
+            with_use += 1;
+        }
         transitions += seq.len() as u64 + 1;
         let (viol, keys) = check_sequence(seq);
         for k in keys {
@@ -878,8 +886,8 @@ fn main() {
         .set("transitions", json!(transitions))
         .set("traces_validated_against_impl", json!(ctx.evaluations.load(Ordering::Relaxed)))
         .set("samples", json!(samples.take()))
-        .set("distinct_nontrivial", json!(ctx.evaluations.load(Ordering::Relaxed)))
-        .set("rule", json!("evaluations = well-typed call sequences executed twice (warm-up, then measured under the auditing allocator); states = distinct configurations of live handles (request, action, filter, proxies, buffer length) reached; transitions = calls executed in measured runs incl. the final releases"))
+        .set("distinct_nontrivial", json!(with_use))
+        .set("rule", json!("evaluations = well-typed call sequences executed twice (warm-up, then measured under the auditing allocator); states = distinct configurations of live handles (request, action, filter, proxies, buffer length) reached; transitions = calls executed in measured runs incl. the final releases; distinct_nontrivial = sequences (all distinct) containing at least one call that uses a handle, not only create / release"))
         .set("sequences_enumerated", json!(seqs.len()))
         .set("ill_typed_at_run_time_skipped", json!(skipped_ill_typed))
         .set("max_sequence_length", json!(max))
